@@ -58,7 +58,12 @@ func (m *MTProto) AddCustomServerRequestHandler(handler customHandlerFunc) {
 
 func (m *MTProto) warnError(err error) {
 	if m.Warnings != nil && err != nil {
-		m.Warnings <- err
+		select {
+		case m.Warnings <- err:
+		default:
+			// nobody is listening right now (or the buffer is full). a warning is dropped rather than
+			// stopping the routine which reports it: the reporter is the receive loop or the pinger
+		}
 	}
 }
 
